@@ -4,6 +4,7 @@ import (
 	"fmt"
 	"math/big"
 	"strings"
+	"sync"
 	"testing"
 
 	"github.com/vapourismo/knx-go/knx/cemi"
@@ -120,7 +121,41 @@ type c18Case struct {
 	Args []int64 `json:"args,omitempty"`
 }
 
+// c18Concurrent: 8 goroutines walk all addresses from different offsets, formatting and parsing both kinds.
+func c18Concurrent() *common.Fail {
+	var wg sync.WaitGroup
+	fails := make([]*common.Fail, 8)
+	for g := 0; g < 8; g++ {
+		wg.Add(1)
+		go func(g int) {
+			defer wg.Done()
+			fails[g] = common.Guard(func() *common.Fail {
+				for i := 0; i < 65535; i++ {
+					a := uint16((i+g*8191)%65535) + 1
+					for _, k := range []string{"group-rt", "indiv-rt"} {
+						if f := c18Run(c18Case{Kind: k, Addr: a}); f != nil {
+							f.Detail = fmt.Sprintf("with 8 goroutines formatting and parsing concurrently: %s", f.Detail)
+							return f
+						}
+					}
+				}
+				return nil
+			})
+		}(g)
+	}
+	wg.Wait()
+	for _, f := range fails {
+		if f != nil {
+			return f
+		}
+	}
+	return nil
+}
+
 func c18Run(c c18Case) *common.Fail {
+	if c.Kind == "concurrent-rt" {
+		return c18Concurrent()
+	}
 	switch c.Kind {
 	case "group-parse", "indiv-parse":
 		var verdict refVerdict
@@ -275,6 +310,20 @@ func TestC18(t *testing.T) {
 		f := common.Guard(func() *common.Fail { return c18Run(c) })
 		if f != nil {
 			common.Report(t, rec, f, c)
+		}
+	}
+	// 0. first of all (before anything has been formatted in this process): the round trip from 8 goroutines at once
+	// (formatting and parsing are functions of their argument; an application formats addresses from its receive
+	// loop and from its user interface concurrently)
+	if rec.Env.Shard == 0 {
+		cc := c18Case{Kind: "concurrent-rt"}
+		rec.InFlight(cc)
+		f := c18Run(cc)
+		rec.Landed()
+		rec.Eval(8 * 2 * 65535)
+		rec.ClassN("concurrent-round-trip", 8*2*65535)
+		if f != nil {
+			common.Report(t, rec, f, cc)
 		}
 	}
 	// 1. round trip, exhaustive
